@@ -76,6 +76,33 @@ func buildReq(s spec) actions.ReqLunarAction {
 	return &actions.NoOpAction{}
 }
 
+// buildReqShared / buildRespShared: a fresh action object around a header map the producer keeps between
+// requests (the API-key authenticator caches its header map per endpoint and wraps it in a new action for
+// every request).
+func buildReqShared(s spec, h map[string]string) actions.ReqLunarAction {
+	switch s.Kind {
+	case "MH":
+		return &actions.ModifyHeadersAction{HeadersToSet: h}
+	case "MR":
+		return &actions.ModifyRequestAction{HeadersToSet: h, Host: s.Host, Path: s.Path, QueryParams: s.Query, Body: s.Body}
+	case "GR":
+		return &actions.GenerateRequestAction{HeadersToSet: h, HeadersToRemove: append([]string(nil), s.Remove...), Body: s.Body}
+	case "ER":
+		return &actions.EarlyResponseAction{Status: s.Status, Body: s.Body, Headers: h}
+	}
+	return &actions.NoOpAction{}
+}
+
+func buildRespShared(s spec, h map[string]string) actions.RespLunarAction {
+	switch s.Kind {
+	case "M":
+		return &actions.ModifyResponseAction{HeadersToSet: h, Body: s.Body, Status: s.Status}
+	case "R":
+		return &actions.RetryRequestAction{HeadersToSet: h}
+	}
+	return &actions.NoOpAction{}
+}
+
 func buildResp(s spec) actions.RespLunarAction {
 	switch s.Kind {
 	case "M":
@@ -707,6 +734,31 @@ func (r *runner) runReq(seq []spec, label string, unconstrained bool) {
 				}
 			}
 		}
+		// (d) two requests, producers keep their header maps: request 1 is this sequence, request 2 is one
+		// of its producers alone (a fresh action object around the kept map). What request 2 sends must be
+		// that producer's own edits - nothing request 1 merged may have leaked into the kept map.
+		if len(seq) >= 2 {
+			kept := make([]map[string]string, len(seq))
+			first := make([]actions.ReqLunarAction, len(seq))
+			for i, sp := range seq {
+				kept[i] = cp(sp.H)
+				first[i] = buildReqShared(sp, kept[i])
+			}
+			_ = realReqFold(newReqArgs(), first)
+			for i, sp := range seq {
+				if len(sp.H) == 0 && sp.Kind != "MR" && sp.Kind != "GR" {
+					continue
+				}
+				r.cnt("second_requests_from_a_producer_with_a_kept_header_map")
+				o2 := decode(realReqFold(newReqArgs(), []actions.ReqLunarAction{buildReqShared(sp, kept[i])}))
+				if f := judgeReq(seq[i:i+1], o2); f != nil {
+					rp.Fold = "routing.getSPOEReqActions, second request"
+					r.v.Violate("C07/req/cross-request-leak/kept-header-map-polluted-by-an-earlier-request",
+						fmt.Sprintf("request 1 folded %s; request 2 then carried only action #%d (%s) built around the header map its producer kept, and got: %s", seqString(seq), i, seqString(seq[i:i+1]), f.detail), rp)
+					return
+				}
+			}
+		}
 		if unconstrained {
 			r.reqUnconstrained(seq, oReal)
 		}
@@ -799,6 +851,28 @@ func (r *runner) runResp(seq []spec, label string) {
 		for i, a := range objs {
 			if !sameSpec(specOfResp(a), seq[i]) {
 				r.cnt("alias/input_action_mutated_by_fold/" + seq[i].Kind)
+			}
+		}
+		if len(seq) >= 2 {
+			kept := make([]map[string]string, len(seq))
+			first := make([]actions.RespLunarAction, len(seq))
+			for i, sp := range seq {
+				kept[i] = cp(sp.H)
+				first[i] = buildRespShared(sp, kept[i])
+			}
+			_ = realRespFold(newRespArgs(), first)
+			for i, sp := range seq {
+				if sp.Kind == "N" {
+					continue
+				}
+				r.cnt("second_responses_from_a_producer_with_a_kept_header_map")
+				o2 := decode(realRespFold(newRespArgs(), []actions.RespLunarAction{buildRespShared(sp, kept[i])}))
+				if f := judgeResp(seq[i:i+1], o2, func(string) {}); f != nil {
+					rp.Fold = "routing.getSPOERespActions, second response"
+					r.v.Violate("C07/resp/cross-request-leak/kept-header-map-polluted-by-an-earlier-response",
+						fmt.Sprintf("response 1 folded %s; response 2 then carried only action #%d built around the header map its producer kept, and got: %s", seqString(seq), i, f.detail), rp)
+					return
+				}
 			}
 		}
 	})
